@@ -12,7 +12,7 @@ def _fn_chain(repo, cls, name):
     out = []
     after = None
     while True:
-        c, fn = repo.resolve_method(cls, name, after=after)
+        c, fn = repo.full_resolved(cls, name, after=after)
         if fn is None:
             break
         out.append((c, fn))
@@ -180,7 +180,7 @@ def rule_r(repo, res):
                             res.oblige("R3", f"{c}.encode_time `{norm(js, 50)}`: fraction written with %f (six digits)", ok=True)
     # R2 / R4: the zone-offset suffix the ODL-family encoders can emit vs what the ODL-family decoder accepts
     for enc in repo.subclasses("ODLEncoder"):
-        c, fn = repo.resolve_method(enc, "encode_time")
+        c, fn = repo.full_resolved(enc, "encode_time")
         var = [a.arg for a in fn.args.args if a.arg != "self"][0]
         if "utcoffset" not in _attrs_of(fn, var):
             continue      # this class refuses or ignores offsets (PDS3: raises for non-UTC)
@@ -192,7 +192,7 @@ def rule_r(repo, res):
                 suffixes.append((r, v.right))
         res.floor(f"{c}.encode_time zone-suffix returns", len(suffixes), 2)
         # decoder side: the suffix of the ODL offset regex (after the leading dt group)
-        dc, dfn = repo.resolve_method("ODLDecoder", "decode_datetime")
+        dc, dfn = repo.full_resolved("ODLDecoder", "decode_datetime")
         pat = None
         from . import predeval as PE0, lang as lang0
         ev0 = PE0.Eval(lang0.Reader(repo, "ODLGrammar", "ODLDecoder").ctx, "ODLDecoder", dc, {})
@@ -296,7 +296,7 @@ def rule_decode_side(repo, res):
     # <value>.replace(tzinfo=Z) happens only when utcoffset() is None; Z = UTC only when the text ends with 'Z';
     # Z = the grammar's default zone only when it does not
     from . import flow, inline
-    raw_fn = repo.method("PVLDecoder", "decode_datetime")
+    raw_fn = repo.full("PVLDecoder", "decode_datetime")
     attach = []
     for owner, f_ in inline.closure(repo, "PVLDecoder", raw_fn, module="decoder"):
         for st, conds in flow.stmts_with_conds(f_.body):
@@ -357,7 +357,7 @@ def rule_decode_side(repo, res):
     ok = False
     if sup and len({norm(x) for x in sup}) == 1 and sup[0].func.value.args:
         after = norm(sup[0].func.value.args[0])
-        c, target = repo.resolve_method("PDSLabelDecoder", "decode_datetime", after=after)
+        c, target = repo.full_resolved("PDSLabelDecoder", "decode_datetime", after=after)
         ok = c == "PVLDecoder"
     res.oblige("PDS", "PDSLabelDecoder.decode_datetime resolves (MRO skip) to PVLDecoder.decode_datetime: no zone offsets", ok=ok)
     if not ok:
